@@ -66,15 +66,20 @@ def main(argv=None):
         units = units[:args.limit]
     total = Part()
     nunits = len(units)
-    if args.workers > 1 and nunits > 1:
+    # units that themselves start processes (scipy's worker pool) cannot run inside daemonic pool workers
+    main_units = [u for u in units if isinstance(u, dict) and u.get('main_process')]
+    pool_units = [u for u in units if not (isinstance(u, dict) and u.get('main_process'))]
+    if args.workers > 1 and len(pool_units) > 1:
         ctx = mp.get_context('fork')
-        chunk = max(1, min(8, nunits // (args.workers * 8)))
+        chunk = max(1, min(8, len(pool_units) // (args.workers * 8)))
         with ctx.Pool(args.workers) as pool:
-            for part in pool.imap_unordered(_work, units, chunksize=chunk):
+            for part in pool.imap_unordered(_work, pool_units, chunksize=chunk):
                 total.merge(part)
     else:
-        for u in units:
+        for u in pool_units:
             total.merge(_work(u))
+    for u in main_units:
+        total.merge(_work(u))
 
     if total.counters.get('HARNESS_ERROR'):
         print(f'HARNESS-ERROR property={pid}: exception inside the checking code', file=sys.stderr)
